@@ -50,8 +50,7 @@ def unitLt (a b : List Nat) : Bool := strLt (OttoVerif.Str.unitsOfBytes a) (Otto
 def inRange (x : FV) : Bool := decide (-(2^63 : Int) ≤ truncInt x ∧ truncInt x < 2^63)
 
 /-- deviation regions (each is a decidable predicate over the request) -/
-def devConv (v : Val) : String :=
-  if inRange (toFloat env v) then "-" else "toInt_big"
+def devConv (_v : Val) : String := "-"    -- (region toInt_big repaired by fix 919cc4b)
 
 def reply (m s : String) (dev : String) : String := m ++ " " ++ s ++ " " ++ dev
 
@@ -87,8 +86,7 @@ def handle (ws : List String) : String :=
     | _, _ => "bad-op"
   | ["bin", o, a, b] => match bin? o, val? a, val? b with
     | some o, some x, some y =>
-      let dev := if inRange (toFloat env x) ∧ inRange (toFloat env y) then "-" else "toInt_big"
-      let dev := match o with | .add | .sub | .mul | .div | .rem => "-" | _ => dev
+      let dev := "-"
       reply (valOut (binNum env o x y)) (valOut (Spec.binNum env o x y)) dev
     | _, _, _ => "bad-op"
   | _ => "bad-op"
